@@ -274,7 +274,8 @@ func (fc *FnCtx) Translate() (err error) {
 	}
 	// every anchored clause must have matched a program point
 	if fc.c != nil && !fc.probe {
-		for _, a := range append(append(append([]*AnchorClause{}, fc.c.Asserts...), fc.c.GhostUpd...), fc.c.Assumes...) {
+		for _, a := range append(append(append(append([]*AnchorClause{}, fc.c.Asserts...), fc.c.GhostUpd...), fc.c.Assumes...), fc.c.Interf...) {
+			_ = a
 			if !fc.anchorsHit[a] {
 				var seen []string
 				for s := range fc.anchorsSeen {
